@@ -38,7 +38,7 @@ POOL: list = []
 
 def make_workspace() -> dict:
     global WS
-    top = "/dev/shm" if os.path.isdir("/dev/shm") else "/var/tmp"
+    top = os.environ.get("VERIF_SCRATCH_BASE") or ("/dev/shm" if os.path.isdir("/dev/shm") else "/var/tmp")
     base = os.path.realpath(os.path.join(top, f"ovc06-{os.getpid()}"))
     if os.path.isdir(base):
         shutil.rmtree(base)
